@@ -57,6 +57,9 @@ theorem invA_loc_atm {s : State} {t : Tid} {e : Event} {x' : Thr} (hi : InvA s) 
   | wwCasFail exp new obs hl => loc_case hl
   | wwRelCasOk exp new obs hl => by_cases hz : (s.thr t).list.isEmpty = true <;> simp only [hz, if_true, if_false] <;> loc_case hl
   | wwRelCasFail exp new obs hl => loc_case hl
+  | dbgLd obs hl ho => split <;> loc_case hl
+  | dbgW r obs hl hq hm ho => loc_case hl
+  | dbgRc r obs hl hq ho => loc_case hl
   | _ => simp [Event.isAtomic] at he
 
 theorem invA_loc {s : State} {t : Tid} {e : Event} {x' : Thr} (hi : InvA s) (h : LTr s t e x') :
